@@ -293,7 +293,7 @@ func checkC15(w *World, r *Report) {
 		for _, e := range w.effectsBelow(gpl, func(s *Site) bool { return cg.Atom(s) == StoreGet }, 2) {
 			s := e.Site
 			loc := cg.StoreLocOf(s)
-			keyStr := stringUnderBytes(s.Args()[0])
+			keyStr := stringUnderBytes(cg.StoreKeyOf(s))
 			if h, isH := isCallTo(keyStr, "util.CalculateHash"); isH && (e.ToRoot(h.Common().Args[0]) == ssa.Value(gpl.Params[len(gpl.Params)-1]) && loc.Resolved || strings.HasPrefix(loc.Prefix, linkPrefix)) {
 				ok = true
 			}
